@@ -30,6 +30,7 @@ type Projector struct {
 	dec  *zstd.Decoder
 	// Nonces seen so far (hex) -> count, for C04
 	Nonces map[string]int
+	nonceCt map[string]string
 	// Markers are plaintext strings that must not appear in stored bytes
 	Markers [][]byte
 	// BlobPlain keeps plaintext hash checks: token -> name_ok
@@ -82,16 +83,27 @@ func sha(d []byte) string {
 	return hex.EncodeToString(h[:])
 }
 
-func (p *Projector) noteNonce(n []byte) bool {
+// noteNonce records the nonce of one encrypted object (ct = the ciphertext sealed under it) and reports
+// whether it is fresh: non-zero and never used for a DIFFERENT ciphertext before (storing the very same
+// bytes again, e.g. re-uploading a file, is not a reuse).
+func (p *Projector) noteNonce(n []byte, ct []byte) bool {
 	k := hex.EncodeToString(n)
-	p.Nonces[k]++
+	fp := sha(ct)
 	zero := true
 	for _, b := range n {
 		if b != 0 {
 			zero = false
 		}
 	}
-	return p.Nonces[k] == 1 && !zero
+	if p.nonceCt == nil {
+		p.nonceCt = map[string]string{}
+	}
+	if old, ok := p.nonceCt[k]; ok {
+		return old == fp && !zero
+	}
+	p.nonceCt[k] = fp
+	p.Nonces[k]++
+	return !zero
 }
 
 func (p *Projector) leak(d []byte) bool {
@@ -109,7 +121,7 @@ func (p *Projector) openUnpacked(d []byte) (plain []byte, nonceFresh bool, err e
 		return nil, true, fmt.Errorf("too short")
 	}
 	nonce, ct := d[:p.Key.NonceSize()], d[p.Key.NonceSize():]
-	nonceFresh = p.noteNonce(nonce)
+	nonceFresh = p.noteNonce(nonce, ct)
 	plain, err = p.Key.Open(nil, nonce, ct, nil)
 	if err != nil {
 		return nil, nonceFresh, err
@@ -148,7 +160,7 @@ func (p *Projector) DecodePack(d []byte, withPlain bool) ([]PackBlobInfo, bool, 
 	if len(d) >= 4 {
 		hl := int(uint32(d[len(d)-4]) | uint32(d[len(d)-3])<<8 | uint32(d[len(d)-2])<<16 | uint32(d[len(d)-1])<<24)
 		if hl > 0 && hl+4 <= len(d) {
-			if !p.noteNonce(d[len(d)-4-hl : len(d)-4-hl+p.Key.NonceSize()]) {
+			if !p.noteNonce(d[len(d)-4-hl:len(d)-4-hl+p.Key.NonceSize()], d[len(d)-4-hl+p.Key.NonceSize():len(d)-4]) {
 				fresh = false
 			}
 		}
@@ -166,7 +178,7 @@ func (p *Projector) DecodePack(d []byte, withPlain bool) ([]PackBlobInfo, bool, 
 		if int(b.Offset+b.Length) <= len(d) && int(b.Length) >= p.Key.NonceSize()+16 {
 			raw := d[b.Offset : b.Offset+b.Length]
 			nonce, ct := raw[:p.Key.NonceSize()], raw[p.Key.NonceSize():]
-			bi.Nonce = p.noteNonce(nonce)
+			bi.Nonce = p.noteNonce(nonce, ct)
 			if !bi.Nonce {
 				fresh = false
 			}
